@@ -71,6 +71,8 @@ func c20(c *Ctx) {
 	if copies == 0 {
 		r.Infof("CTR.clonelen: no copy() reached in Clone (element-wise copies are covered by STRUCT.clone K3 only)")
 	}
+	// a per-element buffer is made afresh for every element (not carried over from the previous one)
+	accFreshFor(c, 1, "packet.go")
 }
 
 // deepCopyRule checks O4 on every return of fn and returns the number of reference paths seen.
